@@ -229,6 +229,6 @@ SUBS.append(Sub("fama-corpus", check, enum=enum_corpus, nontrivial=nontrivial, c
 
 MANIFEST = {
     "technique": "property-based testing over six readers x two document sources (library writers, independent reference emitters) + corpus slice; oracle = identity-based tree invariants and constraint-form/usability predicates on the returned model",
-    "level_text": "Validity predicate over every model a reader returns: one parentless root, each feature reached once, relation/child/attribute back-links by object identity, unique names, unary-left/binary-both constraint form, get_features equal to the written names, traversal helpers do not raise. Sampling over generated documents; complete over the corpus in thorough.",
+    "level_text": "Validity predicate over every model a reader returns: one parentless root, each feature reached once, relation/child/attribute back-links by object identity, unique names, unary-left/binary-both constraint form, get_features equal to the written names, traversal helpers do not raise. Sampling over generated documents; complete over the corpus in thorough. Also: documents the readers may accept although they contain odd constructs (unknown rule elements, a second <cardinality> element) - whatever is returned must still be a proper tree. A sample of every sub-check additionally runs in a `python -OO` child with the root logger at DEBUG.",
     "level_note": "Trusted: vf/build.py observer, vf/roundtrip.py predicates, the emitters of C04/C09 as document sources.",
 }
